@@ -127,3 +127,117 @@ Theorem unpack_default : forall n fr r s,
   builtin_call (S n) fr BUnpack [VTab r] s = Ret (seq_get kv 1 (Z.to_nat (border kv))) s.
 Proof. exact unpack_default_lemma. Qed.
 Print Assumptions unpack_default.
+
+(* ---------------------------------------------------------------------------------------------
+   M-VM (coq/VMX): the call mechanisms on the real register-window arithmetic of _state.go /
+   _vm.go, for arbitrary registries, positions and counts. *)
+From GL Require Import VMX.Machine VMX.Step VMX.Spec.
+From GL Require VMX.RegFacts VMX.FrameFacts.
+
+Theorem FillNil_spec : forall r regm n, 0 <= regm -> 0 <= n ->
+  rtop (FillNil r regm n) = regm + n /\
+  forall x, rd (arr (FillNil r regm n)) x =
+    if (regm <=? x) && (x <? regm + n) then cNil
+    else if (regm + n <=? x) && (x <? rtop r) then None
+    else rd (arr r) x.
+Proof. exact RegFacts.FillNil_spec. Qed.
+Print Assumptions FillNil_spec.
+
+Theorem CopyRange_spec : forall r regv start limit n,
+  0 <= regv -> regv <= start -> 0 <= n ->
+  rtop (CopyRange r regv start limit n) = regv + n /\
+  forall x, rd (arr (CopyRange r regv start limit n)) x =
+    if (regv <=? x) && (x <? regv + n) then src_cell (arr r) start (eff_limit r limit) (x - regv)
+    else if (regv + n <=? x) && (x <? rtop r) then None
+    else rd (arr r) x.
+Proof. exact RegFacts.CopyRange_spec. Qed.
+Print Assumptions CopyRange_spec.
+
+Theorem CopyRange_adjust : forall r regv start limit n vs,
+  0 <= regv -> regv <= start -> 0 <= n ->
+  start + len vs = eff_limit r limit ->
+  window_is (arr r) start vs ->
+  window_is (arr (CopyRange r regv start limit n)) regv (adjust (Z.to_nat n) vs).
+Proof. exact RegFacts.CopyRange_adjust. Qed.
+Print Assumptions CopyRange_adjust.
+
+(* OP_RETURN's copy: b is the B operand (0 = "up to the top") *)
+Theorem copyReturnValues_spec : forall r regv start n b vs,
+  0 <= regv -> regv <= start -> 0 <= n -> 0 <= b ->
+  (if b =? 0 then start + len vs = rtop r else len vs = b - 1 /\ start + len vs <= rtop r) ->
+  window_is (arr r) start vs ->
+  let r' := copyReturnValues r regv start n b in
+  rtop r' = regv + n /\
+  window_is (arr r') regv (adjust (Z.to_nat n) vs) /\
+  (forall x, x < regv -> rd (arr r') x = rd (arr r) x) /\
+  (forall x, regv + n <= x < rtop r -> rd (arr r') x = None).
+Proof. exact RegFacts.copyReturnValues_spec. Qed.
+Print Assumptions copyReturnValues_spec.
+
+Theorem initCallFrame_fixed_spec : forall np nregs vararg nargs lb argtb r args,
+  0 <= np -> np <= nregs -> 0 <= lb -> len args = nargs ->
+  Z.land vararg VarArgIsVarArg = 0 ->
+  window_is (arr r) lb args ->
+  let '(r', lb') := initCallFrame_regs np nregs vararg nargs lb argtb r in
+  lb' = lb /\ rtop r' = lb + nregs /\
+  window_is (arr r') lb (adjust (Z.to_nat np) args) /\
+  (forall x, lb + np <= x < lb + nregs -> rd (arr r') x = cNil) /\
+  (forall x, x < lb -> rd (arr r') x = rd (arr r) x).
+Proof. exact RegFacts.initCallFrame_fixed_spec. Qed.
+Print Assumptions initCallFrame_fixed_spec.
+
+Theorem initCallFrame_vararg_spec : forall np nregs vararg nargs lb argtb r args,
+  0 <= np -> np + 1 <= nregs -> 0 <= lb -> lb + nargs <= rtop r -> len args = nargs ->
+  Z.land vararg VarArgIsVarArg <> 0 ->
+  window_is (arr r) lb args ->
+  let '(r', lb') := initCallFrame_regs np nregs vararg nargs lb argtb r in
+  lb' = lb + Z.max nargs np /\ rtop r' = lb' + nregs /\
+  window_is (arr r') lb' (adjust (Z.to_nat np) args) /\
+  window_is (arr r') (lb + np) (skipn (Z.to_nat np) args) /\
+  rd (arr r') (lb' + np) = argtb /\
+  (forall x, lb' + np + 1 <= x < lb' + nregs -> rd (arr r') x = cNil) /\
+  (forall x, x < lb -> rd (arr r') x = rd (arr r) x).
+Proof. exact RegFacts.initCallFrame_vararg_spec. Qed.
+Print Assumptions initCallFrame_vararg_spec.
+
+Theorem initCallFrame_spec : forall np nregs vararg nargs lb argtb r args,
+  0 <= np -> np + 1 <= nregs -> 0 <= lb -> lb + nargs <= rtop r -> len args = nargs ->
+  window_is (arr r) lb args ->
+  let '(r', lb') := initCallFrame_regs np nregs vararg nargs lb argtb r in
+  rtop r' = lb' + nregs /\
+  window_is (arr r') lb' (adjust (Z.to_nat np) args) /\
+  (forall x, lb' + np + 1 <= x < lb' + nregs -> rd (arr r') x = cNil) /\
+  (forall x, x < lb -> rd (arr r') x = rd (arr r) x).
+Proof. exact RegFacts.initCallFrame_spec. Qed.
+Print Assumptions initCallFrame_spec.
+
+(* proper tail calls: the frame is re-used *)
+Theorem tailcall_depth : forall cf callable lv meta nargs RA s b s',
+  tailcall_lua cf callable lv meta nargs RA s = VRet b s' ->
+  length (vstack s') = length (vstack s).
+Proof. exact FrameFacts.tailcall_depth. Qed.
+Print Assumptions tailcall_depth.
+
+Theorem tailcall_depth_op : forall ml gf cl cf inst base s b s',
+  op_of_code (opGetOpCode inst) = Some OP_TAILCALL ->
+  (forall lv fm s0, reg_get (fr_localbase cf + opGetArgA inst) s = VRet lv s0 ->
+                    metaCall lv s0 = VRet fm s0 -> exists c, fst fm = Some (FnLua c)) ->
+  exec_op ml gf cl cf inst base s = VRet b s' ->
+  length (vstack s') = length (vstack s).
+Proof. exact FrameFacts.tailcall_depth_op. Qed.
+Print Assumptions tailcall_depth_op.
+
+Theorem tailcall_n : forall s s', Relation_Operators.clos_refl_trans _ tc_step s s' ->
+  length (vstack s') = length (vstack s).
+Proof. exact FrameFacts.tailcall_n. Qed.
+Print Assumptions tailcall_n.
+
+(* a return pops exactly one frame (and closes the frame's upvalues first, see C03) *)
+Theorem return_spec : forall cf RA B base s b s',
+  vstack s <> [] -> state_cache_inv s -> not_coroutine_bottom s ->
+  do_return cf RA B base s = VRet b s' ->
+  S (length (vstack s')) = length (vstack s) /\
+  state_cache_inv s' /\
+  (forall u, In u (vuvcache s') -> uv_index (uvat (vuvs s') u) < fr_localbase cf).
+Proof. exact FrameFacts.return_spec. Qed.
+Print Assumptions return_spec.
